@@ -23,7 +23,8 @@ const TS_DEFS: &str = "CREATE TABLE t(line = '^([^;]*);([^;]*);([^;]*);([^;]*);(
 /// (every offset 0..30 occurs), optionally followed by more text — for code that slices text by byte positions
 pub fn awkward_text(rng: &mut Rng) -> String {
     let shape = *rng.pick(&["2024-03-01 12:00:00.123456 and later", "1:02:03.5 hours", "9223372036854775807000", "true or false", "-12345.678e10 units", "approximately noon or a bit later"]);
-    let cut = rng.below(31).min(shape.len());
+    // every offset 0..30, with extra weight on 14..21 (the lengths of date / time literal prefixes)
+    let cut = (if rng.chance(1, 2) { 14 + rng.below(8) } else { rng.below(31) }).min(shape.len());
     let wide = *rng.pick(&["\u{e9}", "\u{20ac}", "\u{1f600}", "\u{ff15}", "\u{3000}", "\u{130}"]);
     let mut out: String = shape[..cut].to_owned();
     out.push_str(wide);
@@ -187,6 +188,10 @@ pub fn run(p: &Params) -> Run {
         }
     }
     run.notes.push("almost-literal text with a multi-byte character at every byte offset 0..30 in TIMESTAMP / INTERVAL / TEXT fields and JSON strings".to_owned());
+    // extraction over generated definitions (every pattern kind incl. split field 0 = the whole line, every column type
+    // and modifier, JSON paths) and lines made for them: a panic is a failure, the rows are correspondence cases
+    let mut xrng = Rng::new(p.seed ^ 0x09E);
+    crate::extract::random_cases(&mut run, &mut xrng, p.n(70, 2_000), 6, 4);
     run.notes.push("every case runs under catch_unwind with overflow checks on; a panic is a failure; text-format runs and expressions are also model correspondence cases".to_owned());
     run
 }
